@@ -10,6 +10,8 @@ import Rc.Drv.C17
 import Rc.Drv.C19
 import Rc.Drv.C13
 import Rc.Drv.C04
+import Rc.Drv.C03
+import Rc.Drv.C12
 import Rc.Drv.C18
 
 def dispatch (prop : String) : Option (List String → String) :=
@@ -21,6 +23,8 @@ def dispatch (prop : String) : Option (List String → String) :=
   | "C19" => some Rc.Drv.C19.handle
   | "C13" => some Rc.Drv.C13.handle
   | "C04" => some Rc.Drv.C04.handle
+  | "C03" => some Rc.Drv.C03.handle
+  | "C12" => some Rc.Drv.C12.handle
   | "C18" => some Rc.Drv.C18.handle
   | _ => none
 
